@@ -9,7 +9,14 @@
 //!     single-byte substitution / truncation of the captured files; all
 //!     short byte strings; pairs of deviations on the skeletons;
 //! (c) `sort_and_verify_deltas` and `has_matching_origins` against a
-//!     reference model.
+//!     reference model;
+//! (d) the sink as a dimension: every file value of (a) written into every
+//!     kind of `io::Write` behaviour (short writes, interrupted calls,
+//!     buffering wrappers, sinks that fail for good or once at every
+//!     position): `Ok` obliges the arrived octets to parse back equal;
+//! (e) the construction route as a dimension: the URIs inside the files
+//!     made by every public constructor / serde route from texts with
+//!     scheme and authority in every case form.
 //!
 //! Nothing is sampled: every space below is a finite product that is
 //! enumerated completely (or reported as cut).
@@ -2732,6 +2739,510 @@ fn space_call_parameters(ctx: &Ctx) {
     sp.done(true, &format!("{} values x 8 widths x 11 format specs", values.len()));
 }
 
+//============ sinks: how the written octets are accepted ====================
+
+/// One of the three file types, as a value that can be written and judged.
+enum FileVal { N(NotificationFile), S(Snapshot), D(Delta) }
+
+impl FileVal {
+    fn kind(&self) -> Kind { match self { FileVal::N(_) => Kind::Notification, FileVal::S(_) => Kind::Snapshot, FileVal::D(_) => Kind::Delta } }
+    fn write(&self, w: &mut dyn io::Write) -> io::Result<()> {
+        let mut w = w;
+        match self { FileVal::N(f) => f.write_xml(&mut w), FileVal::S(f) => f.write_xml(&mut w), FileVal::D(f) => f.write_xml(&mut w) }
+    }
+    /// The round-trip clause: the octets parse back to a value equal to this one.
+    fn parses_back(&self, xml: &[u8]) -> Result<(), String> {
+        match self {
+            FileVal::N(f) => { let b = NotificationFile::parse(xml).map_err(|e| format!("does not parse: {e}"))?; if &b != f { return Err("parses to a different notification".into()) } }
+            FileVal::S(f) => { let b = Snapshot::parse(xml).map_err(|e| format!("does not parse: {e}"))?; if &b != f { return Err("parses to a different snapshot".into()) } }
+            FileVal::D(f) => { let b = Delta::parse(xml).map_err(|e| format!("does not parse: {e}"))?; if &b != f { return Err("parses to a different delta".into()) } }
+        }
+        Ok(())
+    }
+}
+
+/// How an `io::Write` sink behaves. All but the last two deliver every
+/// octet they accept and accept at least one octet of every non-empty
+/// buffer (possibly after `ErrorKind::Interrupted`, which `write_all`
+/// retries): a correct writer gets the whole document through them.
+#[derive(Clone, Copy, Debug, PartialEq, Eq)]
+enum SinkKind {
+    /// `Vec<u8>`: takes every buffer whole (control)
+    Vec,
+    /// `io::Cursor<Vec<u8>>`
+    CursorVec,
+    /// `&mut [u8]` exactly as long as the document (notification only) / 4096 octets longer
+    SliceExact, SliceRoomy,
+    /// at most k octets per call
+    Chunk(usize),
+    /// one octet on the first call, everything afterwards
+    FirstOne,
+    /// at most a octets on even calls, at most b on odd calls
+    Alternate(usize, usize),
+    /// half (rounded up) of what is offered
+    Half,
+    /// all but the last octet of what is offered
+    AllButOne,
+    /// `ErrorKind::Interrupted` on every other call, at most k octets otherwise
+    Interrupted(usize),
+    /// `BufWriter` of the given capacity around Chunk(k): octets arrive when the caller flushes after `write_xml`
+    Buffered(usize, usize),
+    /// `LineWriter` around Chunk(k), flushed by the caller afterwards
+    LineBuffered(usize),
+    /// accepts n octets in total, then fails every call
+    FailAfter(usize),
+    /// accepts n octets, fails ONE call (`WouldBlock`), then accepts everything
+    FailOnce(usize),
+}
+
+impl SinkKind {
+    fn healthy_menu() -> Vec<SinkKind> {
+        use SinkKind::*;
+        let mut v = vec![Vec, CursorVec, SliceExact, SliceRoomy];
+        for k in [1usize, 2, 3, 5, 7, 16, 61, 64, 4096] { v.push(Chunk(k)) }
+        v.extend([FirstOne, Alternate(1, usize::MAX), Alternate(usize::MAX, 1), Alternate(2, 5), Half, AllButOne, Interrupted(usize::MAX), Interrupted(3)]);
+        for (cap, k) in [(8192usize, 1usize), (8192, 4096), (16, 3), (1, 2), (0, 1)] { v.push(Buffered(cap, k)) }
+        v.extend([LineBuffered(1), LineBuffered(7)]);
+        v
+    }
+    fn takes_buffers_whole(self) -> bool { matches!(self, SinkKind::Vec | SinkKind::CursorVec | SinkKind::SliceExact | SinkKind::SliceRoomy) }
+    fn reports_failure(self) -> bool { matches!(self, SinkKind::FailAfter(_) | SinkKind::FailOnce(_)) }
+}
+
+struct Scripted { kind: SinkKind, calls: usize, fired: bool, got: Vec<u8> }
+
+impl Scripted {
+    fn new(kind: SinkKind) -> Self { Scripted { kind, calls: 0, fired: false, got: Vec::new() } }
+}
+
+impl io::Write for Scripted {
+    fn write(&mut self, b: &[u8]) -> io::Result<usize> {
+        if b.is_empty() { return Ok(0) }
+        let call = self.calls;
+        self.calls += 1;
+        let len = b.len();
+        let n = match self.kind {
+            SinkKind::Chunk(k) => len.min(k),
+            SinkKind::FirstOne => if call == 0 { 1 } else { len },
+            SinkKind::Alternate(x, y) => len.min(if call % 2 == 0 { x } else { y }),
+            SinkKind::Half => len.div_ceil(2),
+            SinkKind::AllButOne => (len - 1).max(1),
+            SinkKind::Interrupted(k) => { if call % 2 == 0 { return Err(io::Error::new(io::ErrorKind::Interrupted, "interrupted")) } len.min(k) }
+            SinkKind::FailAfter(n) => { if self.got.len() >= n { return Err(io::Error::other("sink broke")) } len.min(n - self.got.len()) }
+            SinkKind::FailOnce(n) => {
+                if !self.fired && self.got.len() >= n { self.fired = true; return Err(io::Error::new(io::ErrorKind::WouldBlock, "sink not ready")) }
+                if self.fired { len } else { len.min(n - self.got.len()) }
+            }
+            _ => len,
+        };
+        self.got.extend_from_slice(&b[..n]);
+        Ok(n)
+    }
+    fn flush(&mut self) -> io::Result<()> { Ok(()) }
+}
+
+/// Writes `f` into a sink of the given kind. Returns the library's result
+/// (after the caller's flush for the buffering sinks) and what arrived.
+fn run_sink(kind: SinkKind, doc_len: usize, f: &FileVal) -> (Result<(), String>, Vec<u8>) {
+    use io::Write as _;
+    let show = |e: io::Error| format!("{:?}: {e}", e.kind());
+    match kind {
+        SinkKind::Vec => { let mut v = Vec::new(); let r = f.write(&mut v).map_err(show); (r, v) }
+        SinkKind::CursorVec => { let mut c = io::Cursor::new(Vec::new()); let r = f.write(&mut c).map_err(show); (r, c.into_inner()) }
+        SinkKind::SliceExact | SinkKind::SliceRoomy => {
+            let size = if kind == SinkKind::SliceExact { doc_len } else { doc_len + 4096 };
+            let mut buf = vec![0u8; size];
+            let left = { let mut s: &mut [u8] = &mut buf[..]; let r = f.write(&mut s).map_err(show); (r, s.len()) };
+            buf.truncate(size - left.1);
+            (left.0, buf)
+        }
+        SinkKind::Buffered(cap, k) => {
+            let mut bw = io::BufWriter::with_capacity(cap, Scripted::new(SinkKind::Chunk(k)));
+            let r = f.write(&mut bw).map_err(show).and_then(|_| bw.flush().map_err(|e| format!("caller's flush: {e}")));
+            match bw.into_inner() { Ok(s) => (r, s.got), Err(e) => (Err(format!("into_inner: {}", e.error())), Vec::new()) }
+        }
+        SinkKind::LineBuffered(k) => {
+            let mut lw = io::LineWriter::new(Scripted::new(SinkKind::Chunk(k)));
+            let r = f.write(&mut lw).map_err(show).and_then(|_| lw.flush().map_err(|e| format!("caller's flush: {e}")));
+            match lw.into_inner() { Ok(s) => (r, s.got), Err(e) => (Err(format!("into_inner: {}", e.error())), Vec::new()) }
+        }
+        _ => { let mut s = Scripted::new(kind); let r = f.write(&mut s).map_err(show); (r, s.got) }
+    }
+}
+
+type Oc = BTreeMap<&'static str, u64>;
+
+/// One (file value, sink) case. `Ok` from `write_xml` obliges the sink to
+/// hold a document that parses back to an equal value; an `Err` is not
+/// judged (recorded as an outcome class only).
+fn judge_sink(fails: &Fails, order: u64, oc: &mut Oc, wit: &dyn Fn() -> String, f: &FileVal, reference: &[u8], ref_ok: bool, kind: SinkKind) {
+    let oracle: &'static str = if kind.reports_failure() { "C09.sinks.failing" } else { "C09.sinks.short_writes" };
+    let bump = |oc: &mut Oc, k: &'static str| *oc.entry(k).or_insert(0) += 1;
+    match guard(|| run_sink(kind, reference.len(), f)) {
+        Err(p) => { bump(oc, "oracle-violated"); fails.push(order, oracle, format!("{} sink={kind:?}", wit()), format!("write_xml panicked: {p}")) }
+        Ok((Err(_), _)) => bump(oc, if kind.reports_failure() { "error-surfaced-from-failing-sink" } else { "error-returned-on-a-sink-that-accepts-everything-eventually (not judged)" }),
+        Ok((Ok(()), got)) => {
+            let verdict = if got == reference && ref_ok { Ok(()) } else { guard(|| f.parses_back(&got)).and_then(|r| r) };
+            match verdict {
+                Ok(()) => bump(oc, if kind.reports_failure() { "ok-and-complete-failure-point-not-reached" } else if got == reference { "ok-and-same-octets-as-into-a-vec" } else { "ok-and-complete-other-octets" }),
+                Err(d) => {
+                    bump(oc, "oracle-violated");
+                    fails.push(order, oracle, format!("{} sink={kind:?}", wit()),
+                        format!("write_xml returned Ok but the {} octets that arrived {d}; written into a Vec the file has {} octets; arrived {} -- into a Vec {}", got.len(), reference.len(),
+                            trunc(&first_difference(&text(&got), &text(reference)), 160), trunc(&first_difference(&text(reference), &text(&got)), 160)));
+                }
+            }
+        }
+    }
+}
+
+fn space_sinks(ctx: &Ctx) {
+    let thorough = ctx.tier.is_thorough();
+    let menu = SinkKind::healthy_menu();
+    let sp = ctx.space("sinks.short_writes",
+        "the sink as a dimension: write_xml of EVERY file value of the round-trip spaces (notification: 504 header combinations + all delta sequences; snapshot and delta: every single element x 12 headers + all element sequences over the reduced alphabets) into every sink of a menu of io::Write behaviours that accept all octets eventually: Vec, Cursor<Vec>, `&mut [u8]` (exact / roomy), at most k octets per call (k = 1,2,3,5,7,16,61,64,4096), one octet on the first call, alternating 1/all, all/1, 2/5, half of what is offered, all but one octet, ErrorKind::Interrupted on every other call, BufWriter (capacity 8192,16,1,0) and LineWriter around a k-per-call sink (flushed by the caller); plus (failing sinks) a sink that breaks for good after n octets and one that fails ONE call after n octets, for EVERY n up to the document length, on 24 small files. Oracle: if write_xml returns Ok, the octets that arrived parse back to a value == the written one (an Err is not judged, only counted); non-trivial = cases whose sink does not take every buffer whole");
+    let fails = Fails::new();
+    let sess = sessions();
+    let menu_ref = &menu;
+    // one value against the whole menu
+    let sweep = |order: u64, wit: &dyn Fn() -> String, f: &FileVal| {
+        let mut oc: Oc = BTreeMap::new();
+        let mut reference = Vec::new();
+        let ref_ok = guard(|| f.write(&mut reference).is_ok()).unwrap_or(false) && guard(|| f.parses_back(&reference)).and_then(|r| r).is_ok();
+        let mut n = 0u64; let mut nt = 0u64;
+        for (si, &kind) in menu_ref.iter().enumerate() {
+            if kind == SinkKind::SliceExact && f.kind() != Kind::Notification { continue } // see history: base64's writer never gives up on a full slice
+            n += 1; if !kind.takes_buffers_whole() { nt += 1 }
+            judge_sink(&fails, order << 8 | si as u64, &mut oc, wit, f, &reference, ref_ok, kind);
+        }
+        sp.evals(n); sp.nontrivial(nt); sp.merge_outcomes(&oc);
+    };
+    let mut bound: Vec<String> = Vec::new();
+    // notification values
+    {
+        let one = [DeltaSpec { serial: 1, uri: 0, hash: 2 }];
+        let mut hdr: Vec<(usize, u64, usize, usize, usize)> = Vec::new();
+        for s in 0..3 { for &serial in &SERIALS { for su in 0..HTTPS_URIS.len() { for sh in 0..3 { for nd in 0..2 { hdr.push((s, serial, su, sh, nd)) } } } } }
+        hdr.par_iter().enumerate().for_each(|(i, &(s, serial, su, sh, nd))| {
+            let ds = &one[..nd];
+            if let Ok(nf) = guard(|| build_notification(s, serial, su, sh, ds)) { sweep(i as u64, &|| format!("notification {}", show_notification(s, serial, su, sh, ds)), &FileVal::N(nf)) }
+        });
+        let dserials: [u64; 5] = [0, 1, 2, MAX - 1, MAX];
+        let mut full: Vec<DeltaSpec> = Vec::new();
+        for &serial in &dserials { for uri in 0..HTTPS_URIS.len() { for hash in 0..3 { full.push(DeltaSpec { serial, uri, hash }) } } }
+        let mut reduced: Vec<DeltaSpec> = Vec::new();
+        for &serial in &dserials { for uri in [0usize, 2, 3, 6] { reduced.push(DeltaSpec { serial, uri, hash: 2 }) } }
+        let plans: [(&[DeltaSpec], u32); 2] = [(&full[..], 2), (&reduced[..], if thorough { 4 } else { 3 })];
+        for (pi, (alpha, max_len)) in plans.into_iter().enumerate() {
+            let k = alpha.len() as u64;
+            par_for(seq_count(k, max_len), |idx| {
+                let mut ix = Vec::new();
+                seq_at(k, max_len, idx, &mut ix);
+                let ds: Vec<DeltaSpec> = ix.iter().map(|&i| alpha[i]).collect();
+                if let Ok(nf) = guard(|| build_notification(2, 5, 0, 2, &ds)) { sweep(((pi as u64 + 1) << 32) | idx, &|| format!("notification {}", show_notification(2, 5, 0, 2, &ds)), &FileVal::N(nf)) }
+            });
+            bound.push(format!("notification: all sequences of <= {max_len} deltas over {k} delta values"));
+        }
+        bound.insert(0, format!("notification: {} header combinations", hdr.len()));
+    }
+    // snapshot and delta values
+    {
+        let full = data_full();
+        let mut singles: Vec<ElSpec> = Vec::new();
+        for uri in 0..RSYNC_URIS.len() {
+            for d in &full { singles.push(ElSpec::Publish { uri, data: *d }) }
+            for hash in 0..3 {
+                for d in &full { singles.push(ElSpec::Update { uri, hash, data: *d }) }
+                singles.push(ElSpec::Withdraw { uri, hash });
+            }
+        }
+        let as_snapshot = |s: Uuid, serial: u64, els: &[ElSpec]| -> Option<FileVal> {
+            if !els.iter().all(|e| matches!(e, ElSpec::Publish { .. })) { return None }
+            guard(|| Snapshot::new(s, serial, els.iter().map(|e| match *e { ElSpec::Publish { uri, data } => PublishElement::new(rsync(RSYNC_URIS[uri]), data.bytes()), _ => unreachable!() }).collect())).ok().map(FileVal::S)
+        };
+        let as_delta = |s: Uuid, serial: u64, els: &[ElSpec]| -> Option<FileVal> { guard(|| Delta::new(s, serial, els.iter().map(|e| e.to_delta_element()).collect())).ok().map(FileVal::D) };
+        let show = |els: &[ElSpec]| els.iter().map(|e| e.show()).collect::<Vec<_>>().join(" ");
+        singles.par_iter().enumerate().for_each(|(i, e)| {
+            for (si, s) in sess.iter().enumerate() { for (ni, &serial) in SERIALS.iter().enumerate() {
+                let els = std::slice::from_ref(e);
+                let order = (3u64 << 32) | (i as u64) << 8 | (si * 4 + ni) as u64;
+                if let Some(f) = as_snapshot(*s, serial, els) { sweep(order << 1, &|| format!("snapshot session#{si} serial={} [{}]", show_serial(serial), show(els)), &f) }
+                if let Some(f) = as_delta(*s, serial, els) { sweep(order << 1 | 1, &|| format!("delta session#{si} serial={} [{}]", show_serial(serial), show(els)), &f) }
+            }}
+        });
+        bound.push(format!("snapshot / delta: {} single elements x 12 headers", singles.len()));
+        for (si, s) in sess.iter().enumerate() { for &serial in &SERIALS {
+            if let Some(f) = as_snapshot(*s, serial, &[]) { sweep(4u64 << 32, &|| format!("snapshot session#{si} serial={} []", show_serial(serial)), &f) }
+            if let Some(f) = as_delta(*s, serial, &[]) { sweep(4u64 << 32 | 1, &|| format!("delta session#{si} serial={} []", show_serial(serial)), &f) }
+        }}
+        let alpha = |uris: &[usize], hs: &[usize], data: &[DataSpec]| -> Vec<ElSpec> {
+            let mut v = Vec::new();
+            for &uri in uris {
+                for d in data { v.push(ElSpec::Publish { uri, data: *d }) }
+                for &hash in hs { for d in data { v.push(ElSpec::Update { uri, hash, data: *d }) } v.push(ElSpec::Withdraw { uri, hash }) }
+            }
+            v
+        };
+        let smid: Vec<ElSpec> = alpha(&[0, 2, 4], &[], &data_mid());
+        let ssmall: Vec<ElSpec> = alpha(&[0, 3], &[], &data_small());
+        let dmid = alpha(&[0, 2, 4], &[0, 2], &data_mid()[..6]);
+        let dsmall = alpha(&[0, 3], &[1, 2], &data_small());
+        let plans: [(&[ElSpec], u32, bool); 4] = [(&smid[..], if thorough { 3 } else { 2 }, true), (&ssmall[..], if thorough { 4 } else { 3 }, true), (&dmid[..], if thorough { 3 } else { 2 }, false), (&dsmall[..], 3, false)];
+        for (pi, (a, max_len, snap)) in plans.into_iter().enumerate() {
+            let k = a.len() as u64;
+            par_for(seq_count(k, max_len), |idx| {
+                let mut ix = Vec::new();
+                seq_at(k, max_len, idx, &mut ix);
+                let els: Vec<ElSpec> = ix.iter().map(|&i| a[i]).collect();
+                let order = ((pi as u64 + 5) << 32) | idx;
+                if snap { if let Some(f) = as_snapshot(sess[2], 1 << 63, &els) { sweep(order, &|| format!("snapshot session#2 serial=2^63 [{}]", show(&els)), &f) } }
+                else if let Some(f) = as_delta(sess[2], MAX, &els) { sweep(order, &|| format!("delta session#2 serial=MAX [{}]", show(&els)), &f) }
+            });
+            bound.push(format!("{}: all sequences of <= {max_len} elements over {k} element values", if snap { "snapshot" } else { "delta" }));
+        }
+    }
+    bound.push(format!("each x {} sinks", menu.len()));
+    // failing sinks: every position of small files
+    {
+        let mut small: Vec<(String, FileVal)> = Vec::new();
+        for v in 0..3u64 {
+            small.push((format!("history notification #{v}"), FileVal::N(hist_notification(v))));
+            small.push((format!("history snapshot #{v}"), FileVal::S(hist_snapshot(v))));
+            small.push((format!("history delta #{v}"), FileVal::D(hist_delta(v))));
+        }
+        for len in 0..=7usize {
+            let d = DataSpec { len, pat: 2 };
+            small.push((format!("snapshot [P({},{})]", RSYNC_URIS[3], d.show()), FileVal::S(Snapshot::new(sess[2], 1, vec![PublishElement::new(rsync(RSYNC_URIS[3]), d.bytes())]))));
+        }
+        for len in [1usize, 2, 3, 4, 5, 767, 769] {
+            let d = DataSpec { len, pat: 2 };
+            small.push((format!("delta [U({},hash#2,{}) W({},hash#1)]", RSYNC_URIS[2], d.show(), RSYNC_URIS[0]), FileVal::D(Delta::new(sess[2], 1, vec![UpdateElement::new(rsync(RSYNC_URIS[2]), hashes()[2], d.bytes()).into(), WithdrawElement::new(rsync(RSYNC_URIS[0]), hashes()[1]).into()]))));
+        }
+        let n_small = small.len();
+        small.par_iter().enumerate().for_each(|(i, (name, f))| {
+            let mut oc: Oc = BTreeMap::new();
+            let mut reference = Vec::new();
+            let ref_ok = guard(|| f.write(&mut reference).is_ok()).unwrap_or(false) && guard(|| f.parses_back(&reference)).and_then(|r| r).is_ok();
+            let mut n = 0u64;
+            for pos in 0..=reference.len() {
+                for kind in [SinkKind::FailAfter(pos), SinkKind::FailOnce(pos)] {
+                    n += 1;
+                    judge_sink(&fails, (15u64 << 40) | (i as u64) << 24 | (pos as u64) << 1 | (kind == SinkKind::FailOnce(pos)) as u64, &mut oc, &|| format!("file={name} ({} octets)", reference.len()), f, &reference, ref_ok, kind);
+                }
+            }
+            sp.evals(n); sp.nontrivial(n); sp.merge_outcomes(&oc);
+        });
+        bound.push(format!("{n_small} small files x every position x 2 failing sinks"));
+    }
+    fails.flush_into(ctx, &sp);
+    sp.set("sinks", json!(menu.iter().map(|s| format!("{s:?}")).collect::<Vec<_>>()));
+    sp.sample_str(|| format!("notification {} sink={:?}", show_notification(2, 5, 0, 2, &[DeltaSpec { serial: MAX, uri: 4, hash: 1 }]), SinkKind::Alternate(2, 5)));
+    sp.sample_str(|| format!("file=history delta #1 sink={:?}", SinkKind::FailOnce(200)));
+    sp.done(true, &bound.join("; "));
+}
+
+//============ construction routes of the URIs inside the files ==============
+
+/// What the two URI types have in common, so that one sweep serves both.
+trait UriT: Sized + Clone + PartialEq + std::hash::Hash + FromStr<Err = uri::Error> + TryFrom<String, Error = uri::Error> + serde::Serialize + serde::de::DeserializeOwned {
+    const NAME: &'static str;
+    fn of_string(s: String) -> Result<Self, uri::Error>;
+    fn of_slice(s: &[u8]) -> Result<Self, uri::Error>;
+    fn of_bytes(b: Bytes) -> Result<Self, uri::Error>;
+    fn text(&self) -> &str;
+    fn unshared(&self) -> Self;
+    fn parent_of(&self) -> Option<Self>;
+    fn joined(&self, path: &[u8]) -> Result<Self, uri::Error>;
+}
+
+macro_rules! impl_urit { ($t:ty, $name:literal) => {
+    impl UriT for $t {
+        const NAME: &'static str = $name;
+        fn of_string(s: String) -> Result<Self, uri::Error> { <$t>::from_string(s) }
+        fn of_slice(s: &[u8]) -> Result<Self, uri::Error> { <$t>::from_slice(s) }
+        fn of_bytes(b: Bytes) -> Result<Self, uri::Error> { <$t>::from_bytes(b) }
+        fn text(&self) -> &str { self.as_str() }
+        fn unshared(&self) -> Self { let mut c = self.clone(); c.unshare(); c }
+        fn parent_of(&self) -> Option<Self> { self.parent() }
+        fn joined(&self, path: &[u8]) -> Result<Self, uri::Error> { self.join(path) }
+    }
+}}
+impl_urit!(uri::Https, "uri::Https");
+impl_urit!(uri::Rsync, "uri::Rsync");
+
+/// Every public way to obtain a URI value from a text.
+#[derive(Clone, Copy, Debug, PartialEq, Eq)]
+enum Route {
+    FromStr, StrParse, FromString, TryFromString, FromSlice, FromBytesOwned, FromBytesStatic, FromBytesView,
+    SerdeJsonStr, SerdeJsonValue, SerdeJsonReader, SerdeRoundTrip, CloneUnshare, ParentJoin,
+}
+
+const ROUTES: [Route; 14] = [
+    Route::FromStr, Route::StrParse, Route::FromString, Route::TryFromString, Route::FromSlice, Route::FromBytesOwned, Route::FromBytesStatic, Route::FromBytesView,
+    Route::SerdeJsonStr, Route::SerdeJsonValue, Route::SerdeJsonReader, Route::SerdeRoundTrip, Route::CloneUnshare, Route::ParentJoin,
+];
+
+/// `None`: the route does not exist for this text (no parent to join to).
+fn via<U: UriT>(route: Route, t: &str) -> Option<Result<U, String>> {
+    let e = |e: uri::Error| e.to_string();
+    Some(match route {
+        Route::FromStr => U::from_str(t).map_err(e),
+        Route::StrParse => t.parse::<U>().map_err(e),
+        Route::FromString => U::of_string(t.to_string()).map_err(e),
+        Route::TryFromString => U::try_from(t.to_string()).map_err(e),
+        Route::FromSlice => U::of_slice(t.as_bytes()).map_err(e),
+        Route::FromBytesOwned => U::of_bytes(Bytes::from(t.as_bytes().to_vec())).map_err(e),
+        // (a few hundred short texts per run are leaked to obtain `'static` octets)
+        Route::FromBytesStatic => U::of_bytes(Bytes::from_static(Box::leak(t.as_bytes().to_vec().into_boxed_slice()))).map_err(e),
+        Route::FromBytesView => { let big = Bytes::from(format!("<<{t}>>").into_bytes()); U::of_bytes(big.slice(2..2 + t.len())).map_err(e) }
+        Route::SerdeJsonStr => serde_json::from_str::<U>(&serde_json::to_string(t).ok()?).map_err(|e| e.to_string()),
+        Route::SerdeJsonValue => serde_json::from_value::<U>(serde_json::Value::String(t.to_string())).map_err(|e| e.to_string()),
+        Route::SerdeJsonReader => serde_json::from_reader::<_, U>(serde_json::to_string(t).ok()?.as_bytes()).map_err(|e| e.to_string()),
+        Route::SerdeRoundTrip => { let u = U::from_str(t).ok()?; serde_json::to_value(&u).and_then(serde_json::from_value::<U>).map_err(|e| e.to_string()) }
+        Route::CloneUnshare => Ok(U::from_str(t).ok()?.unshared()),
+        Route::ParentJoin => { let u = U::from_str(t).ok()?; let p = u.parent_of()?; let rest = t.get(p.text().len()..)?; if rest.is_empty() { return None } p.joined(rest.as_bytes()).map_err(e) }
+    })
+}
+
+fn std_hash<T: std::hash::Hash>(v: &T) -> u64 {
+    use std::hash::Hasher;
+    let mut h = std::collections::hash_map::DefaultHasher::new();
+    v.hash(&mut h);
+    h.finish()
+}
+
+const CASE_FORMS: [&str; 3] = ["lower", "UPPER", "MiXed"];
+
+/// `s` with its ASCII letters in the given case form.
+fn case_form(s: &str, form: usize) -> String {
+    match form {
+        0 => s.to_ascii_lowercase(),
+        1 => s.to_ascii_uppercase(),
+        _ => { let mut n = 0; s.chars().map(|c| if c.is_ascii_alphabetic() { n += 1; if n % 2 == 1 { c.to_ascii_uppercase() } else { c.to_ascii_lowercase() } } else { c }).collect() }
+    }
+}
+
+/// scheme://authority/path with scheme and authority in the given case forms (the path is left alone).
+fn uri_text(scheme: &str, sf: usize, authority: &str, af: usize, path: &str) -> String {
+    format!("{}://{}{path}", case_form(scheme, sf), case_form(authority, af))
+}
+
+/// Same-text law: the values all routes make from ONE text are `==` (both ways) with equal hashes,
+/// and all routes agree on whether the text is a URI at all.
+fn routes_same_text<U: UriT>(fails: &Fails, order: u64, oc: &mut Oc, t: &str) -> (u64, u64) {
+    let bump = |oc: &mut Oc, k: &'static str| *oc.entry(k).or_insert(0) += 1;
+    let made: Vec<(Route, Result<Option<Result<U, String>>, String>)> = ROUTES.iter().map(|&r| (r, guard(|| via::<U>(r, t)))).collect();
+    let base = match &made[0].1 { Ok(Some(Ok(u))) => Some(u.clone()), _ => None };
+    let (mut n, mut nt) = (0u64, 0u64);
+    let cased = t.split('/').take(3).any(|p| p.bytes().any(|b| b.is_ascii_uppercase()));
+    for (i, (r, m)) in made.iter().enumerate() {
+        n += 1;
+        let wit = || format!("{} text={t:?} route={r:?} (against route FromStr)", U::NAME);
+        match m {
+            Err(p) => { bump(oc, "oracle-violated"); fails.push(order << 8 | i as u64, "C09.routes.same_value", wit(), format!("the route panicked: {p}")) }
+            Ok(None) => bump(oc, "route-not-applicable"),
+            Ok(Some(Err(e))) => {
+                if base.is_some() { bump(oc, "oracle-violated"); fails.push(order << 8 | i as u64, "C09.routes.same_value", wit(), format!("refused ({e}) although from_str accepts the text")) }
+                else { bump(oc, "refused-by-every-route") }
+            }
+            Ok(Some(Ok(u))) => {
+                if cased && i > 1 { nt += 1 }
+                match &base {
+                    None => { bump(oc, "oracle-violated"); fails.push(order << 8 | i as u64, "C09.routes.same_value", wit(), format!("accepted (as {:?}) although from_str refuses the text", u.text())) }
+                    Some(b) => {
+                        let (ab, ba, hb, hu) = (b == u, u == b, std_hash(b), std_hash(u));
+                        if ab && ba && hb == hu { bump(oc, if u.text() == t { "equal-and-same-octets" } else { "equal-other-octets" }) }
+                        else { bump(oc, "oracle-violated"); fails.push(order << 8 | i as u64, "C09.routes.same_value", wit(), format!("from_str value {:?} == route value {:?}: {ab}; the other way round: {ba}; hashes {hb:016x} / {hu:016x}", b.text(), u.text())) }
+                    }
+                }
+            }
+        }
+    }
+    (n, nt)
+}
+
+fn space_routes(ctx: &Ctx) {
+    let sp = ctx.space("routes.uri_constructors",
+        "the construction route as a dimension: every URI inside a file (notification: snapshot and delta URIs; snapshot / delta: publish, update, withdraw URIs) made by every public route {FromStr, str::parse, from_string, TryFrom<String>, from_slice, from_bytes of an owned / static / sliced-out-of-a-larger Bytes, serde_json from_str / from_value / from_reader, serialise+deserialise, clone+unshare, parent().join(last segment)} from texts with scheme x authority in {lower, UPPER, MiXed} case (3 authorities incl. a port; paths with upper-case letters and XML-escaped characters). (1) all routes agree on accepting a text, and the values they make from ONE text are == (both ways) with equal std hashes (also for 12 texts that are not URIs: refused by all); (2) a file whose URIs come from route r (and, for one case form, snapshot from r1 / deltas from r2 for all ordered pairs) written and parsed back is == the written one, field by field, URI texts octet for octet (the full round-trip oracle of roundtrip.*); non-trivial = cases with an upper-case letter in scheme or authority and a route other than FromStr / str::parse");
+    let fails = Fails::new();
+    let hs = hashes();
+    let sess = sessions();
+    let https_auth = ["rrdp.example.net", "h.example:8443", "a-b.c0.example"];
+    let https_paths = ["/Repo/77/Snapshot.xml", "/Repo/77/Delta.xml", "/repo/76/delta.xml", "/a&b'/X.xml", "", "/"];
+    let rsync_auth = ["rpki.example.net", "h.example:873", "a-b.c0.example"];
+    let rsync_paths = ["/Repo/CA/One.cer", "/repo/ca/one.cer", "/Mod/a&b'.roa", "/m/Dir/", "/m/"];
+    let not_uris = ["", "https://", "http://h.example/x", "https:/h.example/x", "https://h.exa mple/x", "https://h.example/\u{e9}", "rsync://h.example/m", "rsync://h.example//x", "rsync://h.example/m/../x", "rsync://", "rsync:/h.example/m/x", "ftp://h.example/m/x"];
+    // (1) same text, every route
+    let mut texts: Vec<(bool, String)> = Vec::new();
+    for a in https_auth { for p in https_paths { for sf in 0..3 { for af in 0..3 { texts.push((true, uri_text("https", sf, a, af, p))) } } } }
+    for a in rsync_auth { for p in rsync_paths { for sf in 0..3 { for af in 0..3 { texts.push((false, uri_text("rsync", sf, a, af, p))) } } } }
+    for t in not_uris { texts.push((true, t.to_string())); texts.push((false, t.to_string())) }
+    texts.par_iter().enumerate().for_each(|(i, (is_https, t))| {
+        let mut oc: Oc = BTreeMap::new();
+        let (n, nt) = if *is_https { routes_same_text::<uri::Https>(&fails, i as u64, &mut oc, t) } else { routes_same_text::<uri::Rsync>(&fails, i as u64, &mut oc, t) };
+        sp.evals(n); sp.nontrivial(nt); sp.merge_outcomes(&oc);
+    });
+    // (2) files whose URIs come from one route
+    let file_case = |order: u64, what: &'static str, wit: &dyn Fn() -> String, cased: bool, plain_route: bool, f: &dyn Fn() -> Result<(), String>| {
+        sp.eval();
+        if cased && !plain_route { sp.nontrivial(1) }
+        sp.outcome(if cased { "file-with-upper-case-scheme-or-authority" } else { "file-all-lower-case" });
+        fails.check(order, what, wit, f);
+    };
+    let need = |r: Route, t: &str, x: Option<Result<uri::Https, String>>| x.ok_or_else(|| format!("route {r:?} does not exist for {t:?}"))?.map_err(|e| format!("route {r:?} refuses {t:?}: {e}"));
+    let need_r = |r: Route, t: &str, x: Option<Result<uri::Rsync, String>>| x.ok_or_else(|| format!("route {r:?} does not exist for {t:?}"))?.map_err(|e| format!("route {r:?} refuses {t:?}: {e}"));
+    let mut n_files = 0u64;
+    for (ai, a) in https_auth.into_iter().enumerate() { for sf in 0..3 { for af in 0..3 { for (ri, &r) in ROUTES.iter().enumerate() {
+        let order = (1u64 << 32) | ((ai * 9 + sf * 3 + af) as u64) << 8 | ri as u64;
+        let ts: Vec<String> = [0usize, 1, 3].iter().map(|&p| uri_text("https", sf, a, af, https_paths[p])).collect();
+        n_files += 1;
+        file_case(order, "C09.routes.notification", &|| format!("route={r:?} for snapshot and delta URIs; snapshot={} deltas=[{} {}]", ts[0], ts[1], ts[2]), sf + af > 0, ri < 2, &|| {
+            let us: Vec<uri::Https> = ts.iter().map(|t| need(r, t, via::<uri::Https>(r, t))).collect::<Result<_, _>>()?;
+            let nf = NotificationFile::new(sess[2], 77, UriAndHash::new(us[0].clone(), hs[2]), vec![DeltaInfo::new(77, us[1].clone(), hs[0]), DeltaInfo::new(76, us[2].clone(), hs[1])]);
+            roundtrip_notification(&nf).map(|_| ())
+        });
+    }}}}
+    // snapshot URI from r1, delta URIs from r2 (MiXed / MiXed and UPPER / lower)
+    for (sf, af) in [(2usize, 2usize), (1, 0)] { for (i1, &r1) in ROUTES.iter().enumerate() { for (i2, &r2) in ROUTES.iter().enumerate() {
+        let ts: Vec<String> = [0usize, 1, 3].iter().map(|&p| uri_text("https", sf, https_auth[0], af, https_paths[p])).collect();
+        n_files += 1;
+        file_case((2u64 << 32) | ((sf * 3 + af) as u64) << 16 | (i1 as u64) << 8 | i2 as u64, "C09.routes.notification", &|| format!("snapshot URI by route {r1:?}, delta URIs by route {r2:?}; snapshot={} deltas=[{} {}]", ts[0], ts[1], ts[2]), true, i1 < 2 && i2 < 2, &|| {
+            let s = need(r1, &ts[0], via::<uri::Https>(r1, &ts[0]))?;
+            let d1 = need(r2, &ts[1], via::<uri::Https>(r2, &ts[1]))?;
+            let d2 = need(r2, &ts[2], via::<uri::Https>(r2, &ts[2]))?;
+            let nf = NotificationFile::new(sess[1], MAX, UriAndHash::new(s, hs[2]), vec![DeltaInfo::new(MAX, d1, hs[0]), DeltaInfo::new(MAX - 1, d2, hs[1])]);
+            roundtrip_notification(&nf).map(|_| ())
+        });
+    }}}
+    for (ai, a) in rsync_auth.into_iter().enumerate() { for sf in 0..3 { for af in 0..3 { for (ri, &r) in ROUTES.iter().enumerate() {
+        let order = (3u64 << 32) | ((ai * 9 + sf * 3 + af) as u64) << 8 | ri as u64;
+        let ts: Vec<String> = [0usize, 1, 2].iter().map(|&p| uri_text("rsync", sf, a, af, rsync_paths[p])).collect();
+        let wit = || format!("route={r:?} for publish / update / withdraw URIs {} {} {}", ts[0], ts[1], ts[2]);
+        n_files += 2;
+        file_case(order, "C09.routes.snapshot", &wit, sf + af > 0, ri < 2, &|| {
+            let us: Vec<uri::Rsync> = ts.iter().map(|t| need_r(r, t, via::<uri::Rsync>(r, t))).collect::<Result<_, _>>()?;
+            let want: Vec<Seen> = us.iter().enumerate().map(|(i, u)| Seen::Publish { uri: u.clone(), hash: None, data: DataSpec { len: [0, 4, 769][i], pat: 2 }.bytes().to_vec() }).collect();
+            roundtrip_snapshot(sess[2], 3, &want, [0, 1, 5][ri % 3])
+        });
+        file_case(order | 1 << 31, "C09.routes.delta", &wit, sf + af > 0, ri < 2, &|| {
+            let us: Vec<uri::Rsync> = ts.iter().map(|t| need_r(r, t, via::<uri::Rsync>(r, t))).collect::<Result<_, _>>()?;
+            let want = vec![
+                Seen::Publish { uri: us[0].clone(), hash: None, data: vec![1, 2, 3, 4] },
+                Seen::Publish { uri: us[1].clone(), hash: Some(hs[2]), data: vec![] },
+                Seen::Withdraw { uri: us[2].clone(), hash: hs[1] },
+                Seen::Withdraw { uri: us[0].clone(), hash: hs[0] },
+            ];
+            roundtrip_delta_seen(sess[2], 4, &want, [0, 1, 5][ri % 3])
+        });
+    }}}}
+    fails.flush_into(ctx, &sp);
+    sp.set("routes", json!(ROUTES.iter().map(|r| format!("{r:?}")).collect::<Vec<_>>()));
+    sp.set("case_forms", json!(CASE_FORMS));
+    sp.sample_str(|| format!("route=FromBytesView text={}", uri_text("https", 2, https_auth[0], 2, https_paths[0])));
+    sp.sample_str(|| format!("route=SerdeJsonValue text={}", uri_text("rsync", 1, rsync_auth[1], 2, rsync_paths[2])));
+    sp.done(true, &format!("{} texts x {} routes; {n_files} files", texts.len(), ROUTES.len()));
+}
+
 fn main() {
     // before anything is parsed: every log record the library emits is formatted from now on
     let logger_ok = log::set_logger(&LOGGER).is_ok();
@@ -2753,7 +3264,7 @@ fn main() {
     // C09_ONLY=<comma list> is a development aid; a partial run is never a verdict.
     let only = std::env::var("C09_ONLY").ok();
     if only.is_some() { ctx.machinery_error("C09_ONLY is set: partial run") }
-    let spaces: [(&str, fn(&Ctx)); 20] = [
+    let spaces: [(&str, fn(&Ctx)); 22] = [
         ("deltas", space_deltas), ("origins", space_origins),
         ("rt_notification", space_rt_notification), ("rt_snapshot", space_rt_snapshot), ("rt_delta", space_rt_delta),
         ("short", space_hostile_short), ("pairs", space_hostile_pairs), ("mutations", space_hostile_mutations),
@@ -2762,6 +3273,7 @@ fn main() {
         ("scale", space_scale), ("names", space_names),
         ("history", space_history), ("handed_out", space_handed_out), ("ownership", space_ownership),
         ("environment", space_environment), ("call_parameters", space_call_parameters),
+        ("sinks", space_sinks), ("routes", space_routes),
     ];
     // The value spaces build their inputs from fixed URI alphabets. If the library under
     // test refuses one of these protocol-valid URIs, that is reported as a violation
@@ -2772,7 +3284,7 @@ fn main() {
     for u in RSYNC_URIS { if let Err(e) = guard(|| uri::Rsync::from_str(u).map_err(|e| e.to_string())).and_then(|r| r) { alphabet_ok = false; ctx.fail("C09.roundtrip.alphabet", u.to_string(), format!("protocol-valid rsync URI refused by uri::Rsync::from_str: {e}")) } }
     for (name, f) in spaces {
         if let Some(o) = &only { if !o.split(',').any(|x| x == name) { continue } }
-        if !alphabet_ok && ["deltas", "origins", "rt_notification", "rt_snapshot", "rt_delta", "scale", "history", "handed_out", "ownership", "environment", "call_parameters"].contains(&name) { continue }
+        if !alphabet_ok && ["deltas", "origins", "rt_notification", "rt_snapshot", "rt_delta", "scale", "history", "handed_out", "ownership", "environment", "call_parameters", "sinks", "routes"].contains(&name) { continue }
         let t = std::time::Instant::now();
         if let Err(p) = guard(|| f(&ctx)) { ctx.machinery_error(format!("explorer code for space group {name} panicked: {p}")) }
         if std::env::var("C09_TIMING").is_ok() { eprintln!("[{name}] {:.2}s", t.elapsed().as_secs_f64()) }
